@@ -273,9 +273,8 @@ def _enum_pair(ctx, ty):
     multi = []
     oks = [o for o in outcomes(e, pe) if o["kind"] == "ok"]
     others = [o for o in outcomes(e, pe) if o["kind"] != "ok"]
-    if len(oks) == 1:
-        st = e.blocks[oks[0]["bb"]]["stmts"][oks[0]["idx"]]
-        for term, dbb in codec.arms(pe, st["rv"]["ops"][0], oks[0]["bb"], oks[0]["idx"]):
+    if oks:
+        for term, dbb in codec.ok_payload_arms(e, pe):
             pvs = path_variants(prog, pe, conditions(e, pe, dbb))
             sv = pvs.get(("param", 0))
             wv = _variant_of_value_term(term)
